@@ -13,6 +13,7 @@ oracle: independent of the Coq model — abstract bounded history kept from the 
 import math, itertools
 from fractions import Fraction as Fr
 from vf.core import *
+from vf import gentie        # translator G11a: translate/gen_lbfgs.py -> coq/gen/LbfgsGen.v (LbfgsGenEq.v: generated = Lbfgs.v)
 
 EPS = 2.0 ** -52
 # signatures of the two ways a write of apply_masked into the stored history shows up (the defect fixed by 9c14560e5;
@@ -707,7 +708,16 @@ def run(ctx):
                         "the NaN<config_t> mark apply_masked writes into the workspace α(i) of a pair it excludes is modelled as a bool of the slot (sl_skip), cleared by every ordinary assignment of α(i); std::isnan(α(i)) is `sl_skip || isnan α`, so a genuine NaN α at binary64 is skipped as in the code",
                         "memory is a natural number in the model (negative LBFGSParams::memory not modelled); index sets J are lists of in-range indices without repetition",
                         "uninitialised storage after resize is never read by the code paths modelled (only live slots are accessed)"]
-    check_properties(ctx)
+    gentie.translate(ctx, gentie.LBFGS)            # tie 1: regenerate coq/gen/LbfgsGen.v from core.REPO; status -> ctx.coverage["translator_lbfgs"]
+    ok = check_properties(ctx)                     # Properties_C09.v requires LbfgsGenEq.v (generated = hand model, piece by piece)
+    if not ok:
+        gentie.name_obligations(ctx, gentie.LBFGS)   # name every LbfgsGenEq obligation that no longer checks
+    gentie.account_eq(ctx, gentie.LBFGS, ok)
+    ctx.assumptions += ["translator G11a (gen_lbfgs.py): reads / writes of s(i), y(i), ρ(i), α(i), idx, full are get / set on an abstract column store "
+                        "(LbfgsGenLib.store_ops, instantiated by the slots of Lbfgs.state); `α(i) = NaN<config_t>` / `std::isnan(α(i))` are the mark / test of the "
+                        "store; foreach_fwd / foreach_rev evaluate their index list at loop entry (their bodies never assign idx / full: checked by the translator)",
+                        "generated piece = hand model piece is proved over ideal reals where the terms are not convertible (LbfgsGenEq.v); binary64 agreement of "
+                        "the generated functions with the implementation is checked by Corr_LbfgsGen.chk09g on the same records (independent of the hand model)"]
     rc, log = coq_make(["theories/Corr_C09.vo"])     # the executable side of the model must be current as well
     if rc != 0:
         ctx.broke("correspondence", "coq-build:Corr_C09", log)
@@ -768,3 +778,9 @@ def run(ctx):
                   json.dumps({"sequence": seq_json(sq), "coq_term": terms[failing[0]][:3000], "model": getattr(ctx, "last_dump", "")}))
     elif failing is not None:
         ctx.coverage["correspondence_disagreements"] = 0
+    # translation validation: the GENERATED functions (run on the same container) against the same implementation records
+    def describe(i):
+        sq = seqs[owner[i]]
+        return "%s sequence %s: %s" % (sq["kind"], sq.get("word", ""), json.dumps(seq_json(sq), ensure_ascii=False)[:1500])
+    gentie.validate(ctx, gentie.LBFGS, "gencorr", "Lbfgs LbfgsGenLib LbfgsGen LbfgsGenInst Corr_C09 Corr_LbfgsGen", "c09case", "chk09g", terms,
+                    "model09g", describe, shard=ctx.n(120, 250))
